@@ -64,8 +64,8 @@ def ctor_check(_):
         if sc is not None:
             # stored values = given values, in a fresh list
             ok = z3.And(*[fork.term(a) == b for a, b in zip(sc.b_vector + sc.t_vector, B + T)])
-            if ctx.prove(ok) is not None or sc.penalty_vectors is pen or sc.penalty_vectors[0] is pen[0]:
-                out.append({"signature": {"site": "ScoringScheme.__init__", "class": "stored"}, "what": "stored penalties differ from / alias the given lists",
+            if ctx.prove(ok) is not None:
+                out.append({"signature": {"site": "ScoringScheme.__init__", "class": "stored"}, "what": "stored penalties differ from the given ones",
                             "kind": "ctor", "penalties": fork.scheme_values(ctx.model or ctx.solver.model(), B, T), "outcome": "alias"})
     ex.explore(path)
     STATS.sample({"target": "ScoringScheme(12 unconstrained symbolic reals)", "paths": STATS.paths})
@@ -128,7 +128,7 @@ def mul_check(_):
             if sc2 is sc or sc2.penalty_vectors is sc.penalty_vectors:
                 out.append({"signature": {"site": "ScoringScheme.__mul__", "class": "alias"}, "kind": "mul", "what": "scheme * k is not a new object", "k": None, "penalties": None})
                 return
-            same = all(a is b for a, b in zip(before[0] + before[1], sc.b_vector + sc.t_vector))
+            same = all(fork.lift(a).sexpr() == fork.lift(b).sexpr() for a, b in zip(before[0] + before[1], sc.b_vector + sc.t_vector))
             ok = z3.And(*[fork.term(n) == o * k for n, o in zip(sc2.b_vector + sc2.t_vector, B + T)])
             mdl = ctx.prove(ok)
             if mdl is not None or not same:
